@@ -187,7 +187,8 @@ func renderVTT(d vttDoc, r vttRendering) []byte {
 	emit := func(l string) { lines = append(lines, l) }
 	head := "WEBVTT"
 	if r.HeaderTail != "" {
-		head += " " + r.HeaderTail
+		// blank or tab between the signature and the free text
+		head += map[bool]string{false: " ", true: "\t"}[len(r.HeaderTail)%2 == 0] + r.HeaderTail
 	}
 	emit(head)
 	if d.TSMap != nil {
